@@ -6,6 +6,7 @@ package connectors
 // Ref output computed by TLC.
 
 import (
+	"encoding/base64"
 	"bytes"
 	"compress/gzip"
 	"context"
@@ -131,6 +132,30 @@ func c01Session(path string, plain, serverless bool, bufSize int) (problem strin
 
 var c01Header = regexp.MustCompile(`REMOTE\|vhost\|\s*\d+\|\d+\|f\.log[.a-z]*\|`)
 
+// c01Aborted runs a cat of a big file and shuts the session down after a few messages
+func c01Aborted(dir string) {
+	pf := filepath.Join(dir, "aborted.txt")
+	if _, err := os.Stat(pf); err != nil {
+		var pb strings.Builder
+		for i := 0; i < 1500; i++ {
+			fmt.Fprintf(&pb, "ABORTED-SESSION line %d %s\n", i, strings.Repeat("q", i%70))
+		}
+		os.WriteFile(pf, []byte(pb.String()), 0644)
+	}
+	old := config.Server.MaxLineLength
+	config.Server.MaxLineLength = 1024 * 1024
+	u, _ := user.New("vuser", "harness")
+	ph := serverHandlers.NewServerHandler(u, make(chan struct{}, 2), make(chan struct{}, 2))
+	go ph.Write([]byte(fmt.Sprintf("protocol 4.1 base64 %s;", base64.StdEncoding.EncodeToString([]byte("cat:quiet=true "+pf+" regex:noop ")))))
+	buf := make([]byte, 4096)
+	for i := 0; i < 25; i++ {
+		ph.Read(buf)
+	}
+	ph.Shutdown()
+	time.Sleep(10 * time.Millisecond)
+	config.Server.MaxLineLength = old
+}
+
 func TestC01Exact(t *testing.T) {
 	vInit("stdout")
 	var cases []c01Case
@@ -164,6 +189,9 @@ func TestC01Exact(t *testing.T) {
 		p := c.P
 		if !c.Plain {
 			p = c.P - 2 + len("REMOTE|vhost|100|1|") + len(filepath.Base(path)) + 1 // the model's header is 2 bytes long
+		}
+		if i%9 == 4 {
+			c01Aborted(dir) // a session of the same process that is cut off in the middle of a big file: nothing of it may resurface
 		}
 		var problem string
 		out := c01Capture(func() { problem = c01Session(path, c.Plain, true, p) })
